@@ -151,3 +151,17 @@ Theorem C01_every_live_bracket_class_rematches_its_own_text_partial :
 Proof. exact live_bracket_classes. Qed.
 Goal True. idtac "ASSUMPTIONS-OF C01_every_live_bracket_class_rematches_its_own_text_partial". Abort.
 Print Assumptions C01_every_live_bracket_class_rematches_its_own_text_partial.
+
+(* Name and Label: the live classes ARE the modelled calls with the modelled regular expressions (read off on every
+   run: name_class_tied / label_class_tied are obligations); every identifier is matched as itself, also with blanks
+   around it; whatever is matched is an identifier / 1-5 digits. *)
+Theorem C01_names_and_labels_rematch_partial :
+  name_class_tied = true /\
+  (forall n, is_name n = true -> name_match n = Some n) /\
+  (forall b1 b2 n, blanks b1 -> blanks b2 -> is_name n = true -> name_match (b1 ++ n ++ b2) = Some n) /\
+  (forall s n, name_match s = Some n -> is_name n = true /\ n = strip s) /\
+  label_class_tied = true /\
+  (forall s l, label_match s = Some l -> l = s /\ 1 <= List.length s <= 5 /\ forallb is_digit s = true).
+Proof. exact live_name_class. Qed.
+Goal True. idtac "ASSUMPTIONS-OF C01_names_and_labels_rematch_partial". Abort.
+Print Assumptions C01_names_and_labels_rematch_partial.
